@@ -300,6 +300,14 @@ func leanType(k kind) string {
 
 // ret: the value of a return statement, by function
 func (a *ar) ret(r *ast.ReturnStmt, en env) string {
+	if len(r.Results) == 0 {
+		// a bare return of a function without result: the state as it is now
+		if a.endExpr != "" {
+			return a.endExpr
+		}
+		u, _ := a.unk("bare return")
+		return u
+	}
 	isNil := func(e ast.Expr) bool { id, ok := e.(*ast.Ident); return ok && id.Name == "nil" }
 	asF := func(e ast.Expr) string {
 		s, k := a.expr(e, en)
